@@ -488,7 +488,7 @@ class C03(Check):
     def slots(self, ctx, cssutils, rng):
         from cssutils import helper
         lines, todo = [], []
-        per = ctx.n(450, 9000)
+        per = ctx.n(450, 20000)
         for kind, slots in self.SLOTS.items():
             for _ in range(per):
                 item = self.gen_item(rng, kind)
@@ -541,7 +541,7 @@ class C03(Check):
     # -- generated sheets of all rule kinds, DOM edits, set-back per node type -------------------------
     def oracle_composite(self, ctx, cssutils, rng):
         import xml.dom
-        n = ctx.n(260, 6000)
+        n = ctx.n(260, 15000)
         for i in range(n):
             risk = rng.choice([0.0, 0.0, 0.02, 0.05])
             gen = S.Gen(rng, S.Content(rng, risk))
